@@ -1038,6 +1038,11 @@ func applyMut(e encoded, b behaviour) ([]byte, string, bool) {
 					cut = nx.off + 1
 				case "hdr2":
 					cut = nx.off + 2
+				case "hdr3", "hdr4", "hdr5", "hdr6": // inside the 32-bit length of a long value
+					if nx.hdr != 7 {
+						return nil, "", false
+					}
+					cut = nx.off + int(m.Part[3]-'0')
 				case "pay":
 					cut = nx.off + nx.hdr + nx.Len/2
 				}
@@ -1054,6 +1059,13 @@ func applyMut(e encoded, b behaviour) ([]byte, string, bool) {
 		}
 		mb := append([]byte{}, e.bin...)
 		mb[t[m.I-1].off] = v
+		return mb, t[m.I-1].T, true
+	case "ext":
+		if m.I < 1 || m.I > len(t) || !leafFT[t[m.I-1].T] || t[m.I-1].hdr != 3 {
+			return nil, "", false
+		}
+		mb := append([]byte{}, e.bin...)
+		mb[t[m.I-1].off+1], mb[t[m.I-1].off+2] = 0xFF, 0xFF
 		return mb, t[m.I-1].T, true
 	case "shrink":
 		if m.I < 1 || m.I > len(t) || !leafFT[t[m.I-1].T] || m.KK > t[m.I-1].Len {
